@@ -180,24 +180,27 @@ static void unread_dag(dr_pi_dag * G, size_t file_sz) {          /* dr_read_dag 
 }
 static size_t file_size(const char * fn) { struct stat sb; return stat(fn, &sb) ? 0 : (size_t)sb.st_size; }
 
-/* file at `fn' must hold exactly G (checked byte by byte by this code), and dr_read_dag must return the same */
-static dr_pi_dag * roundtrip(const dr_pi_dag * G, const char * fn, const char * which, const char * extra, size_t * fszp) {
+/* file at `fn' must hold exactly G (checked byte by byte by this code), and dr_read_dag must return the same.
+   relayed: 0 = the library wrote fn itself; otherwise the number of bytes it wrote (into the pipe), fn being the
+   relay file, which may carry a stale tail of an earlier, longer DAG behind them. */
+static dr_pi_dag * roundtrip(const dr_pi_dag * G, const char * fn, const char * which, const char * extra, size_t * fszp, size_t relayed) {
   char cls[100]; *fszp = 0;
 #define BAD(name, ...) do { snprintf(cls, sizeof cls, "roundtrip:%s:%s", which, name); found(cls, extra, __VA_ARGS__); } while (0)
   size_t hdr = DAG_RECORDER_HEADER_LEN + 4 * sizeof(long), tsz = sizeof(dr_pi_dag_node) * G->n, esz = sizeof(dr_pi_dag_edge) * G->m;
-  size_t want = hdr + tsz + esz + G->S->sz, have = file_size(fn);
+  size_t want = hdr + tsz + esz + G->S->sz, have = file_size(fn), mapped = have;
   if (!have) { BAD("no-file", "%s was not written", fn); return NULL; }
+  if (relayed) have = relayed;
   if (have != want) { BAD("file-size", "the file has %zu bytes, header + %ld nodes + %ld edges + string table need %zu", have, G->n, G->m, want); return NULL; }
   /* dr_read_dag maps the whole file privately and patches only the two pointer members of the string table: the
      mapping is the file's content, and it is compared here byte by byte with what was to be dumped */
   dr_pi_dag * R = dr_read_dag(fn);
   if (!R) { BAD("read-fails", "dr_read_dag returns null for the file just written"); return NULL; }
-  *fszp = want;
+  *fszp = mapped;
   const unsigned char * buf = (const unsigned char *)R->T - hdr;
   long h[4]; memcpy(h, buf + DAG_RECORDER_HEADER_LEN, sizeof h);
   if (memcmp(buf, DAG_RECORDER_HEADER, DAG_RECORDER_HEADER_LEN)) BAD("header", "the file does not start with the format header");
   if (h[0] != G->n || h[1] != G->m || h[2] != G->start_clock || h[3] != G->num_workers) BAD("header-fields", "file says n=%ld m=%ld start=%ld workers=%ld, dumped n=%ld m=%ld start=%ld workers=%ld", h[0], h[1], h[2], h[3], G->n, G->m, G->start_clock, G->num_workers);
-  if (h[0] != G->n || h[1] != G->m || R->n != G->n || R->m != G->m) { unread_dag(R, want); *fszp = 0; return NULL; }    /* E and S cannot be located */
+  if (h[0] != G->n || h[1] != G->m || R->n != G->n || R->m != G->m) { unread_dag(R, mapped); *fszp = 0; return NULL; }    /* E and S cannot be located */
   if ((const unsigned char *)R->E != buf + hdr + tsz || (const unsigned char *)R->S != buf + hdr + tsz + esz) BAD("read-layout", "dr_read_dag places E or S at the wrong offset");
   {
     size_t off = sizeof(dr_pi_string_table);
@@ -240,20 +243,63 @@ static void content(const dr_pi_dag * G) {
 
 static void free_pi(dr_pi_dag * G) { free(G->T); free(G->E); free(G->S); }
 
+/* Where the library writes and where it reads.
+     direct : <scratch>/dr.dag, a regular file created by the library's fopen, read back by dr_read_dag, then removed.
+              Used for every serial execution (W = 1): all programs x timings x option settings x file-name counts.
+     relay  : with W > 1 the library's fopen/fwrite/fclose go to <scratch>/dr-pipe.dag, a FIFO in the same directory
+              whose read end this process holds; the bytes are stored with pwrite at offset 0 of <scratch>/dr-relay.dag
+              (kept open, never truncated or removed) and dr_read_dag reads that.  The library code exercised is the
+              same (dr_pi_dag_dump writes through a FILE*, dr_read_dag opens and maps a regular file holding exactly
+              those bytes); what is avoided is one file creation + removal per case, which on a journalled file
+              system shared by 16 processes costs more than everything else together. */
+static int PIPE_RD = -1, RELAY_FD = -1; static char PIPE_PREFIX[260], RELAY_FN[260], SETUP_FOR[200];
+static void relay_setup(void) {
+  if (!strcmp(SETUP_FOR, SCRATCH)) return;
+  strcpy(SETUP_FOR, SCRATCH);
+  if (PIPE_RD >= 0) close(PIPE_RD); if (RELAY_FD >= 0) close(RELAY_FD);
+  char fn[270]; snprintf(PIPE_PREFIX, sizeof PIPE_PREFIX, "%s-pipe", SCRATCH); snprintf(fn, sizeof fn, "%s.dag", PIPE_PREFIX);
+  unlink(fn); if (mkfifo(fn, 0644)) perror(fn);
+  PIPE_RD = open(fn, O_RDONLY | O_NONBLOCK);
+  snprintf(RELAY_FN, sizeof RELAY_FN, "%s-relay.dag", SCRATCH);
+  RELAY_FD = open(RELAY_FN, O_RDWR | O_CREAT | O_TRUNC, 0644);
+}
+static void pipe_drain(void) { char junk[4096]; while (read(PIPE_RD, junk, sizeof junk) > 0) {} }
+static size_t relay_collect(void) {
+  static char buf[1 << 17]; size_t n = 0; ssize_t x;
+  while (n < sizeof buf && (x = read(PIPE_RD, buf + n, sizeof buf - n)) > 0) n += x;
+  if (n && pwrite(RELAY_FD, buf, n, 0) != (ssize_t)n) return 0;
+  return n;
+}
+/* have the library write G (gen = 0: the recorded graph through dr_dump(); gen = 1: G itself through dr_gen_pi_dag)
+   and read it back; the result must be unread_dag()ed with *fszp */
+static dr_pi_dag * through_file(dr_pi_dag * G, int gen, const char * which, const char * extra, size_t * fszp) {
+  int direct = CASE.W == 1;
+  dr_options o = GS.opts; char fn[270]; dr_pi_dag * R;
+  o.dag_file_yes = 1;
+  if (direct) { o.dag_file_prefix = SCRATCH; snprintf(fn, sizeof fn, "%s.dag", SCRATCH); }
+  else { relay_setup(); pipe_drain(); o.dag_file_prefix = PIPE_PREFIX; }
+  dr_opts_init(&o);
+  if (gen) dr_gen_pi_dag(G); else dr_dump_();
+  if (direct) { R = roundtrip(G, fn, which, extra, fszp, 0); unlink(fn); }   /* the mapping outlives the name */
+  else {
+    size_t n = relay_collect();
+    if (!n) { char cls[100]; snprintf(cls, sizeof cls, "roundtrip:%s:no-file", which); found(cls, extra, "nothing was written"); *fszp = 0; return NULL; }
+    R = roundtrip(G, RELAY_FN, which, extra, fszp, n);
+  }
+  return R;
+}
+
 static const char * const AUX_NAMES[4] = { "cases whose DAG bytes equal an earlier setting's (not re-checked)", "distinct DAGs pushed through the file checks", "conversions", "converted DAGs written and read back" };
 static unsigned long long SEEN[128]; static int NSEEN;
 /* More than one file name: on the serial execution (W = 1) with the first timing, under every record-time setting
-   (which names survive which contraction).  The string table does not depend on who ran what.
-   Quick tier only: the second timing (the "one variation") is applied to the serial executions; every multi-worker
-   schedule runs under the first timing (C18 runs both timings everywhere; the thorough tier of C19 does, too). */
+   (which names survive which contraction).  The string table does not depend on who ran what. */
 static int component_skip(int nf, int oi) {
   (void)oi;
   if (nf > 1 && !(CASE.tmi == 0 && CASE.W == 1)) return 1;
-  if (!TIER && CASE.tmi > 0 && CASE.W > 1) return 1;
   return 0;
 }
-/* converted DAGs go through a file when they come from the uncontracted recording (quick: of a serial execution) */
-static int convert_through_file(void) { return CASE.oi == 0 && (TIER || CASE.W == 1); }
+/* converted DAGs go through a file when they come from the uncontracted recording */
+static int convert_through_file(void) { return CASE.oi == 0; }
 
 static void component_case(void) {
   char cls[100], extra[80];
@@ -266,11 +312,9 @@ static void component_case(void) {
   if (NSEEN < 128) SEEN[NSEEN++] = h;
   SLOT->aux[1]++;
 
-  char fn[260]; snprintf(fn, sizeof fn, "%s.dag", SCRATCH);
-  dr_dump_();
   size_t fsz;
-  dr_pi_dag * G1 = roundtrip(G0, fn, "dumped", NULL, &fsz);
-  if (!G1) { unlink(fn); free_pi(G0); return; }
+  dr_pi_dag * G1 = through_file(G0, 0, "dumped", NULL, &fsz);
+  if (!G1) { free_pi(G0); return; }
   if (CASE.verbose) {
     printf("dumped DAG: n=%ld m=%ld strings=%ld\n", G1->n, G1->m, G1->S->n);
     for (long i = 0; i < G1->n; i++) { const dr_pi_dag_node * x = &G1->T[i];
@@ -317,13 +361,9 @@ static void component_case(void) {
 	for (int k = 0; k < EK_MAX; k++) if (t2.edges[k] != t1.edges[k]) { snprintf(cls, sizeof cls, "shrink-totals:edge:%s", EKN[k]); found(cls, extra, "%s edges (explicit + summarised): %ld after conversion, %ld before", EKN[k], t2.edges[k], t1.edges[k]); }
 	chronological(G2, "converted", extra);
 	if (convert_through_file()) {
-	  char fn2[260]; size_t fsz2; snprintf(fn2, sizeof fn2, "%s-conv", SCRATCH);
-	  co.dag_file_prefix = fn2; co.dag_file_yes = 1; dr_opts_init(&co);
-	  dr_gen_pi_dag(G2);
-	  snprintf(fn2, sizeof fn2, "%s-conv.dag", SCRATCH);
-	  dr_pi_dag * R2 = roundtrip(G2, fn2, "converted", extra, &fsz2);
+	  size_t fsz2;
+	  dr_pi_dag * R2 = through_file(G2, 1, "converted", extra, &fsz2);
 	  if (R2) unread_dag(R2, fsz2);
-	  unlink(fn2);
 	  SLOT->aux[3]++;
 	}
       }
@@ -332,7 +372,6 @@ static void component_case(void) {
     dr_opts_init(&saved);
   }
   unread_dag(G1, fsz);
-  unlink(fn);
   free_pi(G0);
 }
 
